@@ -119,6 +119,13 @@ Proof. repeat split; reflexivity. Qed.
 Example C07_ex_typed :
   exists t, type_of (MAndOr (MCheck (MPkK 0%N)) (MOlder 5%N) (MCheck (MPkH 1%N))) = ROk t /\ c_base (t_corr t) = BB.
 Proof. eexists. split; reflexivity. Qed.
+(* the hypotheses of C07_script_direction_partial other than the arithmetic facts are jointly
+   satisfiable: a concrete environment, key table, asset record and script *)
+Example C07_script_direction_nonvacuous :
+  assets_ok ex_e ex_ke ex_A /\ sort_permutes ex_ke /\
+  exists t p, type_of ex_m = ROk t /\ c_base (t_corr t) = BB /\ wf ex_e ex_ke ex_m /\ no_multi ex_m /\
+              lift true ex_m = Some p /\ leval ex_A p = true.
+Proof. exact lift_nonvacuous. Qed.
 Example C07_ex_both_values :
   let p := LThresh 1 [LThresh 2 [LKey 0%N; LOlder 5%N]; LKey 1%N] in
   let A1 := mkAssets (fun k => if N.eqb k 1 then Some [1%N] else None) (fun _ => None) (fun _ => None) (fun _ => None)
